@@ -113,9 +113,21 @@ def run_real(c):
             try:
                 if c['storage'] == 'file':
                     p = kf.get_features_fullpath(cls, 'T', base, c['image'])
+                    if c.get('rewrite'):
+                        # history: another array of the SAME shape (same byte size, same second) was written to this path and
+                        # read before; and the array a reader returned is modified in place before the next read
+                        writer(p, np.zeros(a.shape, dtype=dt))
+                        old = reader(p, dt.type, c['cols'])
+                        if old.size and old.flags.writeable:
+                            old.flat[0] = 1
                     writer(p, a)
                     raw = open(p, 'rb').read()
                     back = reader(p, dt.type, c['cols'])
+                    if c.get('rewrite') and back.size and back.flags.writeable:
+                        scratch = back.copy()
+                        back.fill(0)                      # a caller editing what it was given ...
+                        back = reader(p, dt.type, c['cols'])  # ... must not change what the file says
+                        del scratch
                 elif c['storage'] == 'tar':
                     tp = get_feature_tar_fullpath(cls, 'T', base)
                     os.makedirs(os.path.dirname(tp), exist_ok=True)
@@ -135,6 +147,9 @@ def run_real(c):
                     # depth maps: float32 h x w, written by array_to_file directly when already float32
                     p = kr.get_depth_map_fullpath(base, c['image'] + '.depth')
                     from kapture.io.binary import array_to_file, array_from_file
+                    if c.get('rewrite'):
+                        array_to_file(p, np.zeros(a.shape, dtype=a.dtype))
+                        array_from_file(p, dt.type, c['cols'])
                     array_to_file(p, a)
                     raw = open(p, 'rb').read()
                     back = array_from_file(p, dt.type, c['cols'])
